@@ -410,3 +410,13 @@ reg("C15", [
     "not executed symbolically (std::net::SocketAddr / HashSet<IpAddr> construction is outside the model surface)",
     "socket transport between the two sides is replaced by bytes out = bytes in",
 ])
+
+reg("C02", [
+    M("C02", "question", "question_rt", "questions: 47 QTYPE values (41 types, NULL, IXFR, AXFR, MAILB, MAILA, ANY) x 6 QCLASS values x unicast bit x "
+      "3 name shapes with symbolic label bytes: write_to == RFC 1035 4.1.2 layout, parse(reference bytes) == question",
+      ["<Question as WireFormat>::{write_to,parse,len}", "Question::write_common", "QTYPE/QCLASS conversions"]),
+], [])
+reg("C18", [
+    M("C18", "question_codes", "question_rt", "the same 47 x 6 question type/class values: the code on the wire is the IANA number, and it parses back to the same value",
+      ["<Question as WireFormat>::{write_to,parse}", "u16::from(QTYPE)", "QTYPE::try_from", "QCLASS::try_from"]),
+], [])
